@@ -44,7 +44,10 @@ class QueryHandler:
         """
         self.tokens = []
         self.at_token = -1
-        self.tree = self._parse(expression_string.casefold())
+        try:
+            self.tree = self._parse(expression_string.casefold())
+        except RecursionError:
+            raise ValueError("Parse error: query is nested too deeply") from None
         self._org_string = expression_string
 
     def search(self, hed_string_obj):
